@@ -47,8 +47,56 @@ def ep_programs(ctx):
 
 
 def get(ctx, fam):
+    if fam == "attrs":
+        return build_family(ctx, fam, attr_programs(ctx))
     if fam == "epcfg":
         return build_family(ctx, fam, ep_programs(ctx))
     if fam == "replies":
         return build_family(ctx, fam, reply_programs(ctx))
     raise KeyError(fam)
+
+
+# ---------------------------------------------------------------- C17: forwarded attributes with an effect
+
+DEFAULTABLE = {"bool", "uint", "int", "string", "uint128", "binary", "option", "vec", "map"}
+
+
+def attr_programs(ctx):
+    n_per_bin = ctx.pick(3, 12)
+    nb = ctx.pick(4, 16)
+    out = {}
+    for b in range(nb):
+        progs = []
+        for i in range(n_per_bin):
+            rng = ctx.rng("attrs", b, i)
+            p = spec.gen_program(rng, f"a{b:02d}_{i:02d}", n_ifaces=rng.choice([1, 2]))
+            place_effect_attrs(rng, p)
+            progs.append(p)
+        out[f"a{b:02d}"] = progs
+    return out
+
+
+def place_effect_attrs(rng, p):
+    """serde attributes with an observable effect, at random places of all three forwarding routes."""
+    eff = {"deny": [], "alias": [], "default": []}
+    for part in p["parts"]:
+        kinds = ["instantiate", "migrate", "exec", "query", "sudo"] if part["id"] == "c" else ["exec", "query", "sudo"]
+        part["msg_attrs"] = []
+        for k in kinds:
+            if not any(h["kind"] == k for h in part["handlers"]):
+                continue
+            if rng.random() < 0.35:
+                part["msg_attrs"].append((k, "serde(deny_unknown_fields)"))
+                eff["deny"].append((part["id"], k))
+        for h in part["handlers"]:
+            if h["kind"] in ("exec", "query", "sudo") and rng.random() < 0.35:
+                alias = "alias_" + h["hid"].replace(".", "_") + "_zz"
+                h["sv_attrs"] = [f"serde(alias = \"{alias}\")"]
+                eff["alias"].append((h["hid"], alias))
+            for a in h["args"]:
+                ty = p["types"][a["ti"]]
+                if ty.kind in DEFAULTABLE and all(s.kind in DEFAULTABLE or True for s in ty.sub) and rng.random() < 0.4:
+                    a["attrs"] = ["serde(default)"]
+                    eff["default"].append((h["hid"], a["name"]))
+    p["attr_effects"] = eff
+    return p
